@@ -5,6 +5,7 @@ import Model.Spec.Tidy
 /-
 case <id> kind=consts
 case <id> kind=tidy v=<bits> unit=<hex> iu=<hex: implementation's unit> iv=<bits: implementation's value>
+case <id> kind=hist files=<N<name>:bits:unit+… ; … | …> fk=u|nu|name|all pat=<hex> ivals=<implementation's fresh values>
 case <id> kind=file lines=<U:unit:key=val+key=val | B:bits:unit+bits:unit ; …> q=<hexlist> pat=<hexlist> ivals=<implementation's values>
 -/
 namespace Driver.C04
@@ -108,6 +109,70 @@ def handleFile (l : Line) : IO Unit := do
       if p == u || p == (Spec.Tidy.tidyUnit u).1 then '1' else '0'))
   IO.println s!"spec {id} filt={join sfilt}"
 
+
+/-- a result line of a history: name and measurements as written -/
+structure HLine where
+  name : Bytes
+  ms : List (F64.Bits × Bytes)
+
+def parseHLine (e : String) : HLine :=
+  match e.splitOn ":" with
+  | n :: _ =>
+    let body := (e.drop (n.length + 1)).toString
+    { name := unhex (n.drop 1).toString
+      ms := (body.splitOn "+").filterMap fun m =>
+        match m.splitOn ":" with
+        | [v, u] => some (bits v, unhex u)
+        | _ => none }
+  | [] => { name := [], ms := [] }
+
+def joinNE (l : List String) (sep : String) : String := if l.isEmpty then "-" else sep.intercalate l
+
+/-- `kind=hist`: several files on one Reader, an in-place filter after every result. The model has no
+history: every line is `readerValue` of what is written on it. -/
+def handleHist (l : Line) : IO Unit := do
+  let id := l.id
+  let files : List (List HLine) := ((l.getD "files").splitOn "|").map fun f => (f.splitOn ";").map parseHLine
+  let fk := l.getD "fk"
+  let pat := unhex (l.getD "pat")
+  let sName : Bytes := Bytes.ofString "Keep"
+  -- model
+  let keepModel (ln : HLine) (v : Value) : Bool :=
+    match fk with
+    | "u" => unitMatch (· == pat) v
+    | "nu" => !unitMatch (· == pat) v
+    | "name" => ln.name == sName
+    | _ => true
+  let fresh := "|".intercalate (files.map fun f => joinNE (f.map fun ln =>
+    joinNE (ln.ms.map fun (v, u) => showValue (readerValue v u)) "+") ";")
+  IO.println s!"obs {id} shape=ok fresh={fresh}"
+  let kept := "|".intercalate (files.map fun f => joinNE (f.map fun ln =>
+    String.ofList (ln.ms.map fun (v, u) => if keepModel ln (readerValue v u) then '1' else '0')) ";")
+  let after := "|".intercalate (files.map fun f => joinNE (f.map fun ln =>
+    joinNE ((ln.ms.map fun (v, u) => readerValue v u).filter (keepModel ln) |>.map showValue) "+") ";")
+  IO.println s!"obs {id} kept={kept} after={after}"
+  -- spec: each line on its own
+  let rep := "|".intercalate (files.map fun f => joinNE (f.map fun ln =>
+    joinNE (ln.ms.map fun (v, u) => showReport (Spec.Tidy.report v u)) "+") ";")
+  let ivals := l.getD "ivals" "-"
+  let iunits : List Bytes :=
+    (((ivals.splitOn "|").flatMap (·.splitOn ";")).flatMap (·.splitOn "+")).filterMap fun m =>
+      match m.splitOn ":" with
+      | [_, u, _, _] => some (unhex u)
+      | _ => none
+  let base := if iunits.all Spec.Tidy.isBase then 1 else 0
+  IO.println s!"spec {id} rep={rep} base={base}"
+  let skept := "|".intercalate (files.map fun f => joinNE (f.map fun ln =>
+    String.ofList (ln.ms.map fun (_, u) =>
+      let hit := pat == u || pat == (Spec.Tidy.tidyUnit u).1
+      let k := match fk with
+        | "u" => hit
+        | "nu" => !hit
+        | "name" => ln.name == sName
+        | _ => true
+      if k then '1' else '0')) ";")
+  IO.println s!"spec {id} kept={skept}"
+
 def handle (l : Line) : IO Unit := do
   if l.kind != "case" then return
   let id := l.id
@@ -127,6 +192,7 @@ def handle (l : Line) : IO Unit := do
     let iu := unhex (l.getD "iu")
     IO.println s!"spec {id} unit={su.toHex} val={hexF sv} base={if Spec.Tidy.isBase iu then 1 else 0} idem=1"
   | "file" => handleFile l
+  | "hist" => handleHist l
   | _ => pure ()
 
 end Driver.C04
